@@ -496,7 +496,9 @@ func main() {
 		for _, sc := range []struct {
 			perIP, burst int
 			ageMin       float64
-		}{{1, 12, 10.5}, {1, 12, 16}, {1, 20, 10.5}, {2, 30, 11}, {6, 20, 1.1}, {6, 20, 2.5}, {1, 5, 11}, {3, 40, 12}, {1, 12, 5}, {100, 50, 11}} {
+		}{{1, 12, 10.5}, {1, 12, 16}, {1, 20, 10.5}, {2, 30, 11}, {6, 20, 1.1}, {6, 20, 2.5}, {1, 5, 11}, {3, 40, 12}, {1, 12, 5}, {100, 50, 11},
+			// the default shape (burst below the per-minute rate) with a short cleanup_interval and silences of seconds
+			{100, 50, 0.05}, {60, 10, 0.04}, {120, 30, 0.1}, {100, 50, 0.5}} {
 			id := "9.9.9.7"
 			if sc.ageMin < 5 {
 				id = "9.9.9.7#c100" // a short cleanup_interval is configured
